@@ -102,7 +102,7 @@ class Acc:
 
 
 def new_stats():
-    return dict(paths=0, checks=0, solver_s=0.0, forks=0, loop_iters=0, prop_queries=0, infeasible=0, budget=0, cut=0, hang=0)
+    return dict(paths=0, checks=0, solver_s=0.0, forks=0, loop_iters=0, prop_queries=0, infeasible=0, budget=0, cut=0, hang=0, xchecked=0, xcheck_agree=0)
 
 
 class Engine:
@@ -132,7 +132,44 @@ class Engine:
     def query(self, *assumptions):
         """a property query (counted separately from branch-feasibility queries)"""
         self.stats["prop_queries"] += 1
-        return self.check(*assumptions)
+        r = self.check(*assumptions)
+        if XCHECK_EVERY and self.stats["prop_queries"] % XCHECK_EVERY == 1 and self.stats.get("xchecked", 0) < 1:
+            self.cross_check(assumptions, r)
+        return r
+
+    def cross_check(self, assumptions, r):
+        """re-decides the same query with two other solver builds (/usr/bin/z3 4.8.12, cvc5 1.0.3); a disagreement is a
+        harness error (DESIGN 1.6); unknown / time-out of the other solver is ignored"""
+        import os
+        import subprocess
+        import tempfile
+
+        s2 = z3.Solver()
+        s2.add(self.solver.assertions())
+        s2.add(*assumptions)
+        body = s2.to_smt2()
+        want = "sat" if r else "unsat"
+        with tempfile.NamedTemporaryFile("w", suffix=".smt2", delete=False, dir=os.environ.get("NUSYM_TMP", None)) as f:
+            f.write("(set-logic ALL)\n" + body)
+            path = f.name
+        self.stats["xchecked"] = self.stats.get("xchecked", 0) + 1
+        try:
+            for cmd in (["/usr/bin/z3", "-T:15", path], ["cvc5", "--tlimit=15000", path]):
+                try:
+                    out = subprocess.run(cmd, capture_output=True, text=True, timeout=25).stdout.strip().splitlines()
+                except (subprocess.TimeoutExpired, OSError):
+                    continue
+                ans = out[0].strip() if out else ""
+                if ans in ("sat", "unsat"):
+                    self.stats["xcheck_agree"] = self.stats.get("xcheck_agree", 0) + (ans == want)
+                    if ans != want:
+                        raise Inconclusive(f"cross-solver disagreement: {cmd[0]} says {ans}, z3 python API says {want} ({path})")
+        finally:
+            if os.path.exists(path):
+                try:
+                    os.unlink(path)
+                except OSError:
+                    pass
 
     def model(self):
         return self.solver.model()
@@ -304,6 +341,10 @@ class Engine:
         self.pending = []
         return left
 
+
+import os as _os
+
+XCHECK_EVERY = int(_os.environ.get("NUSYM_XCHECK", "300"))
 
 ENGINE = Engine()
 
